@@ -177,6 +177,7 @@ impl Monitor for C02 {
             ("api:lax::bitor", 100),
             ("api:lax::tensor_assign", 200),
             ("class:operand_with_several_hundred_wires", 100),
+            ("class:operand_with_more_than_a_thousand_wires", 50),
             ("law:unit", 200),
             ("law:lax_unit", 200),
         ]
@@ -201,8 +202,10 @@ impl Monitor for C02 {
                 self.strict(ctx, "discrete", &d, &a, &d);
             }
             _ if r.chance(1, 400) => {
-                // wide operands: interfaces and incidence arrays of several hundred entries
-                let n = r.range(260, 420);
+                // wide operands: interfaces and incidence arrays of several hundred entries (a quarter of them: more
+                // than a thousand), and in the lax representation more than a hundred pending pairs on the right operand
+                let very = r.chance(1, 4);
+                let n = if very { ctx.class("operand_with_more_than_a_thousand_wires"); r.range(1100, 2100) } else { r.range(260, 420) };
                 let wide = |r: &mut Rng| -> P {
                     let w: Vec<u32> = (0..n).map(|_| r.below(3) as u32).collect();
                     let e = vec![PEdge { l: 0, s: r.vec_below(n, n), t: r.vec_below(5, n) }];
@@ -212,7 +215,19 @@ impl Monitor for C02 {
                 ctx.class("operand_with_several_hundred_wires");
                 let small = gen::oh(r, &OhParams::tiny());
                 self.strict(ctx, "wide", &f, &g, &small);
-                self.lax(ctx, "wide", &f.to_lax(), &g.to_lax(), &small.to_lax());
+                let mut lf = f.to_lax();
+                let mut lg = g.to_lax();
+                for _ in 0..r.range(130, 300) {
+                    let (a, b) = (r.below(n), r.below(n));
+                    lg.q.push((a, b));
+                }
+                if !f.w.is_empty() {
+                    for _ in 0..r.small(4) {
+                        let (a, b) = (r.below(f.w.len()), r.below(f.w.len()));
+                        lf.q.push((a, b));
+                    }
+                }
+                self.lax(ctx, "wide", &lf, &lg, &small.to_lax());
             }
             _ => {
                 let params = match r.below(4) { 0 => OhParams::tiny(), 1 | 2 => OhParams::small(), _ => if ctx.thorough { OhParams::medium() } else { OhParams::dense() } };
